@@ -6,6 +6,8 @@ Leg R: every final state TLC reaches is emitted and replayed into the real Clien
        (several feature sets, dtypes, trailing shapes and preprocessor chains); ids and masks compared exactly.
 Leg T: random larger configurations of the real code recorded as traces and validated by TLC (SeqBatchTrace).
 """
+import itertools
+
 import numpy as np
 
 from vf import bat
@@ -50,6 +52,14 @@ def real_run(fedjax, n, bs, k, mode, drop, variant, chain, sliced=0):
   first = [bat.check_batch(b, ref) for b in view]
   mid = bat.checksum(ds.raw_examples)
   second = [bat.check_batch(b, ref) for b in view]
+  # two iterators over the one view alive at once (lock step), and an iterator resumed after another full pass
+  pairs = [(bat.check_batch(a, ref), bat.check_batch(b, ref)) for a, b in zip(view, view)]
+  it_a = iter(view)
+  head_a = [bat.check_batch(b, ref) for b in itertools.islice(it_a, 1)]
+  other = [bat.check_batch(b, ref) for b in view]
+  tail_a = [bat.check_batch(b, ref) for b in it_a]
+  if [p_[0] for p_ in pairs] != first or [p_[1] for p_ in pairs] != first or other != first or head_a + tail_a != first:
+    second = second + [('interleaved iterators disagree',)]
   after = bat.checksum(ds.raw_examples)
   return first, first == second, (before == mid == after)
 
